@@ -6,7 +6,7 @@ For every function of selftest/samples.py and every input pair (a, b) of a grid,
     operator, comparison, branch decision and loop goes through the same z3 encoding the contracts of numpoly use.
 Loops over a symbolic range are cut at real invariants (LOOPS below), so initiation, preservation and use of the invariant go
 through the same machinery as the contracts' loops.  Functions named refused_* use constructs the executor does not encode
-(// and % on symbolic integers, arithmetic on booleans, for/else, ordering of tuples): it must refuse them.
+(`except` across a class hierarchy, for/else over a symbolic range, // on floats): it must refuse them.
 Obligations: the executor's outcome has CPython's kind, exception name and value.  One control obligation per input (value ==
 CPython's value + 1) must NOT be discharged, and the vacuity query of each case must not be provable - so a pipeline that
 proves everything is noticed as well.  Exit 0: all as expected; 1: the executor disagrees with CPython (an unsound or wrong
